@@ -293,6 +293,47 @@ def p5(ctx, res):
                              "of this class, or is the not-passed marker")
 
 
+@rule("P7", "the per-call property resolver re-binds every declared property, whatever route put it in the mapping")
+def p7(ctx, res):
+    from .norm import view
+    init = ctx.func("Properties.__init__")
+    pd = ctx.cls("_PropertyDict")
+    # routes into the mapping that do not pass through the binding __setitem__
+    bypass = [m for m in ("update", "setdefault", "__ior__") if m not in pd.methods]
+    res.stat("dict_mutators_not_overridden_by__PropertyDict", bypass)
+    vb = view(init, ctx.prog).body
+    P = Parents(vb)
+    loops = []
+    for n in walk_own(vb):
+        if isinstance(n, ast.For) and norm(n.iter) in ("self.props.items()", "(props or {}).items()", "props.items()"):
+            tg = n.target
+            if isinstance(tg, ast.Tuple) and len(tg.elts) == 2:
+                nm, pr = norm(tg.elts[0]), norm(tg.elts[1])
+                binds = [x for x in walk_own(n.body) if isinstance(x, ast.Call) and norm(x.func) == f"{pr}.bind"
+                         and any(k.arg == "name" and norm(k.value) == nm for k in x.keywords)
+                         and any(k.arg == "parent" and norm(k.value) in ("self.element", init.params[1].name) for k in x.keywords)]
+                if binds:
+                    inner = guards_of(Parents(n.body), binds[0])
+                    loops.append((n, guards_of(P, n), inner))
+    if not loops:
+        verdict = None if not bypass else False
+        res.judge(verdict, init, "for name, prop in self.props.items(): prop.bind(name=name, parent=self.element)",
+                  detail={"unbound_routes": bypass},
+                  reason="no binding pass at all, while dict.update / setdefault / |= on the property mapping do not bind: "
+                         "properties added that way stay unbound (source None) and are never found by their JSON name")
+        return
+    n, outer, inner = loops[0]
+    early = any(isinstance(x, ast.Return) for st in vb[:vb.index(n)] for x in ast.walk(st)) if n in vb else True
+    unconditional = not outer and not inner and not early
+    res.judge(True if unconditional else (False if bypass else None), init,
+              "for name, prop in self.props.items(): prop.bind(name=name, parent=self.element)",
+              detail={"guards": [norm(t) for t, _ in outer + inner], "unbound_routes": bypass},
+              reason="the binding pass is unconditional: a property put into the mapping through a route that does not bind "
+                     "(dict.update, setdefault, |=) is still resolved by its JSON name on the next validation" if unconditional else
+                     "the binding pass is skipped under a condition, while dict.update / setdefault / |= on the mapping do not "
+                     "bind: a reconfigured class validates differently from a freshly built one")
+
+
 @rule("P6", "inherited properties reach a subclass only as clones")
 def p6(ctx, res):
     new = ctx.func("ObjectMeta.__new__")
